@@ -99,6 +99,7 @@ let run_case (suite : string) (r : rd) : unit =
     plist pitem (force_duration d dm u (rlist ritem r))
   | "fragment" -> let f = rz r in plist pitem (fragment f (rlist ritem r))
   | "unfragment" -> plist pitem (unfragment (rlist ritem r))
+  | "fragunfrag" -> let f = rz r in plist pitem (unfragment (fragment f (rlist ritem r)))
   | "optimize" -> psubs (optimize (rsubs r))
   | "rmstyle" -> psubs (remove_styling (rsubs r))
   | "itemtext" -> pstr (item_text (ritem r))
